@@ -2,6 +2,7 @@ package rulegen
 
 import (
 	"fmt"
+	"os"
 	"sort"
 	"strconv"
 	"strings"
@@ -54,6 +55,49 @@ type Opts struct {
 	AllLast bool
 }
 
+type idEntry struct {
+	name string
+	id   uint32
+}
+
+// localUsers / localGroups: the names of /etc/passwd and /etc/group with their ids (first entry of a
+// name wins, as getpwnam/getgrnam do; purely numeric names are skipped).
+var localUsers, localGroups = readIDs("/etc/passwd"), readIDs("/etc/group")
+
+func readIDs(path string) []idEntry {
+	b, err := os.ReadFile(path)
+	if err != nil {
+		return nil
+	}
+	seen := map[string]bool{}
+	var out []idEntry
+	for _, l := range strings.Split(string(b), "\n") {
+		f := strings.Split(l, ":")
+		if len(f) < 3 || f[0] == "" || strings.HasPrefix(f[0], "#") || strings.HasPrefix(f[0], "+") || strings.HasPrefix(f[0], "-") || seen[f[0]] {
+			continue
+		}
+		if _, err := strconv.ParseUint(f[0], 10, 64); err == nil {
+			continue
+		}
+		id, err := strconv.ParseUint(f[2], 10, 32)
+		if err != nil {
+			continue
+		}
+		ok := true
+		for i := 0; i < len(f[0]); i++ {
+			if strings.IndexByte(safeChars, f[0][i]) < 0 || f[0][i] == ',' || f[0][i] == '=' {
+				ok = false
+			}
+		}
+		if !ok {
+			continue
+		}
+		seen[f[0]] = true
+		out = append(out, idEntry{f[0], uint32(id)})
+	}
+	return out
+}
+
 func randSafe(r *mon.Rand, n int) string {
 	b := make([]byte, n)
 	for i := range b {
@@ -98,6 +142,14 @@ func randString(r *mon.Rand, o *Opts, maxLen int) string {
 func value(r *mon.Rand, field string, list string) (rhs string, val uint32, ops []string) {
 	ops = AllOps
 	switch {
+	case contains(uidFields, field) && len(localUsers) > 0 && r.Chance(1, 6):
+		// a user name: resolved through the passwd database (the harness reads /etc/passwd itself)
+		e := mon.Pick(r, localUsers)
+		rhs, val = e.name, e.id
+	case contains(gidFields, field) && len(localGroups) > 0 && r.Chance(1, 5):
+		// a group name: resolved through the GROUP database - a user of the same name may have another id
+		e := mon.Pick(r, localGroups)
+		rhs, val = e.name, e.id
 	case contains(uidFields, field):
 		rhs = mon.Pick(r, uidValues)
 		if r.Chance(1, 3) {
